@@ -11,6 +11,9 @@
 //            (3 digits), std::pair<int,int> (value v = (v >> 20, v & 0xfffff), lexicographic order = order of v).
 //            The global indices in the line are the values themselves; they have to lie in the range of the type
 //            (int: 32 bit; long: |v| < 2^62; big24: 0..2^24-1; big40, pair: 0..2^40-1), otherwise the line is bad-op.
+//   n=       the chunk size N of ParallelIndexSet<G,LocalIndex,N> (its ArrayList keeps the pairs in separately allocated
+//            chunks of N): 100 (default; any g) or, with g=int, 1 | 3 | 8 — with these every small index set spans
+//            several chunks (sizes N-1, N, N+1, 2N, 2N+1 ... occur all the time)
 //   comm=    the communicator (default w): w = MPI_COMM_WORLD, d = MPI_Comm_dup of it, r0.r1...[+n] = MPI_Comm_split:
 //            the communicator consists of the P world processes r0, r1, ... in this order (world process r_i has rank i
 //            in it), +n = the number of world processes left out (P + n = size of MPI_COMM_WORLD).  The processes left
@@ -26,7 +29,15 @@
 //   segments, executed in order by every rank (every rank knows the whole distributed case).  <s> is a *role*:
 //   0 = the current source index set of the rank, 1 = its current target index set (on a one-set rank the source
 //   object), 2 = an index set the RemoteIndices object does not refer to:
-//     a<s>,<r>,<g>,<l>,<attr>,<pub>   pending add to the object behind role s (0/1) of rank r
+//     a<s>,<r>,<g>,<l>,<attr>,<pub>[,<how>]   pending add to the object behind role s (0/1) of rank r; <how> (default 0)
+//                                     = the way the local index / index pair is made (all denote the same entry):
+//                                       0  LocalIndex(l, attr, pub)
+//                                       1  LocalIndex li(attr, pub); li = l                       (operator=(size_t))
+//                                       2  pub ? LocalIndex(l, attr)  (default isPublic)
+//                                              : LocalIndex li; li.setAttribute(attr); li = l     (default constructor)
+//                                       3  attr==0 && !pub ? set.add(g)  (IndexPair(global): default local index),
+//                                              after endResize  pair.local() = l ;  otherwise as 1
+//                                       4  LocalIndex(l+1, attr, pub), after endResize  pair.setLocal(l)
 //     d<s>,<r>,<g>                    pending delete of every entry with global g in that object (also cancels
 //                                     the pending adds of g there)
 //     R<s>                            every rank resizes (beginResize … endResize) the object behind role s, applying
@@ -80,6 +91,7 @@ struct Ent {
   long l;
   int a;
   bool pub;
+  int how = 0;  // construction variant (see the header comment); not part of the entry's value
 };
 typedef std::pair<Val, int> Key;            // (global, attribute): the sort key of ParallelIndexSet
 typedef std::map<Key, Ent> Shadow;          // shadow of one index set object
@@ -142,8 +154,8 @@ static bool inRange(const std::string& gtype, Val v) {
   return v >= 0 && v < (1LL << 40);  // big40, pair
 }
 
-template <class G> struct ApiT : Api {
-  typedef Dune::ParallelIndexSet<G, LocalIndex> PIS;
+template <class G, int N = 100> struct ApiT : Api {
+  typedef Dune::ParallelIndexSet<G, LocalIndex, N> PIS;
   typedef Dune::RemoteIndices<PIS> RI;
   MPI_Comm comm;
   PIS sets[3];
@@ -170,14 +182,45 @@ template <class G> struct ApiT : Api {
     set.beginResize();
     for (auto it = set.begin(); it != set.end(); ++it)
       if (dels.count(valueOf(it->global()))) set.markAsDeleted(it);
+    std::vector<const Ent*> fixups;  // variants 3 and 4 set the local index once the pair is in the set
     for (auto& e : adds) {
       G g = GT<G>::make(e.g);
       bool have = false;
       for (auto& kv : known) if (kv.second == e.g) have = true;
       if (!have) known.push_back(std::make_pair(g, e.g));
-      set.add(g, LocalIndex((size_t)e.l, (Flags)e.a, e.pub));
+      int how = e.how;
+      if (how == 3 && !(e.a == 0 && !e.pub)) how = 1;
+      if (how == 0) {
+        set.add(g, LocalIndex((size_t)e.l, (Flags)e.a, e.pub));
+      } else if (how == 1) {
+        LocalIndex li((Flags)e.a, e.pub);
+        li = (size_t)e.l;
+        set.add(g, li);
+      } else if (how == 2) {
+        if (e.pub) set.add(g, LocalIndex((size_t)e.l, (Flags)e.a));
+        else {
+          LocalIndex li;
+          li.setAttribute((Flags)e.a);
+          li = (size_t)e.l;
+          set.add(g, li);
+        }
+      } else if (how == 3) {
+        set.add(g);
+        fixups.push_back(&e);
+      } else {
+        set.add(g, LocalIndex((size_t)e.l + 1, (Flags)e.a, e.pub));
+        fixups.push_back(&e);
+      }
     }
     set.endResize();
+    for (const Ent* e : fixups) {
+      G g = GT<G>::make(e->g);
+      for (auto it = set.begin(); it != set.end(); ++it)
+        if (it->global() == g && (int)it->local().attribute() == e->a) {
+          if (e->how == 3) it->local() = (size_t)e->l;
+          else it->setLocal((int)e->l);
+        }
+    }
   }
   bool isSynced() override { return ri->isSynced(); }
   void freeLists() override { ri->free(); }
@@ -212,7 +255,11 @@ template <class G> struct ApiT : Api {
     return problem;
   }
 };
-static Api* makeApi(const std::string& gtype, MPI_Comm comm) {
+static bool chunkOk(const std::string& gtype, long n) { return n == 100 || (gtype == "int" && (n == 1 || n == 3 || n == 8)); }
+static Api* makeApi(const std::string& gtype, int chunk, MPI_Comm comm) {
+  if (gtype == "int" && chunk == 1) return new ApiT<int, 1>(comm);
+  if (gtype == "int" && chunk == 3) return new ApiT<int, 3>(comm);
+  if (gtype == "int" && chunk == 8) return new ApiT<int, 8>(comm);
   if (gtype == "long") return new ApiT<long>(comm);
   if (gtype == "big24") return new ApiT<Dune::bigunsignedint<24>>(comm);
   if (gtype == "big40") return new ApiT<Dune::bigunsignedint<40>>(comm);
@@ -327,6 +374,7 @@ struct Case {
   std::vector<std::vector<int>> hints;
   std::vector<bool> ring;
   std::string gtype = "int";
+  int chunk = 100;                 // N of ParallelIndexSet<G,LocalIndex,N>
   char comm = 'w';                 // w, d, l (list)
   std::vector<int> members;        // comm == 'l': world rank of communicator rank i
   std::vector<Seg> segs;
@@ -358,7 +406,7 @@ static bool parseCase(const std::string& line, int wsize, Case& c, std::string& 
   std::string body = colon == std::string::npos ? "" : line.substr(colon + 3);
   auto hw = words(head);
   why = "header";
-  if (hw.size() < 4 || hw.size() > 6 || hw[0] != "c04") return false;
+  if (hw.size() < 4 || hw.size() > 7 || hw[0] != "c04") return false;
   long P;
   why = "np";
   if (!natural(hw[1], P) || P < 1 || P > wsize) return false;
@@ -376,9 +424,17 @@ static bool parseCase(const std::string& line, int wsize, Case& c, std::string& 
   why = "hints";
   if (!parseHints(hw[3], c.P, c.hints)) return false;
   if (const char* w = hintsProblem(c.hints, c.ring)) { why = w; return false; }
-  bool seenG = false, seenC = false;
+  bool seenG = false, seenC = false, seenN = false;
   for (size_t i = 4; i < hw.size(); ++i) {
     const std::string& t = hw[i];
+    if (t.rfind("n=", 0) == 0 && !seenN) {
+      seenN = true;
+      why = "chunk";
+      long n;
+      if (!natural(t.substr(2), n)) return false;
+      c.chunk = (int)n;
+      continue;
+    }
     if (t.rfind("g=", 0) == 0 && !seenG) {
       seenG = true;
       c.gtype = t.substr(2);
@@ -404,6 +460,8 @@ static bool parseCase(const std::string& line, int wsize, Case& c, std::string& 
       }
     } else { why = "header"; return false; }
   }
+  why = "chunk";
+  if (!chunkOk(c.gtype, c.chunk)) return false;
   why = "np";
   if (c.P + c.extra != wsize) return false;
 
@@ -418,7 +476,7 @@ static bool parseCase(const std::string& line, int wsize, Case& c, std::string& 
     long n1, n2;
     if (sg.kind == 'a' || sg.kind == 'd') {
       auto f = split(rest, ',');
-      if (f.size() != (sg.kind == 'a' ? 6u : 3u)) return false;
+      if (sg.kind == 'a' ? (f.size() != 6 && f.size() != 7) : f.size() != 3) return false;
       if (!natural(f[0], n1) || !natural(f[1], n2) || n1 > 1 || n2 >= c.P) return false;
       sg.s = (int)n1; sg.r = (int)n2;
       if (!integer(f[2], sg.e.g)) return false;
@@ -426,7 +484,13 @@ static bool parseCase(const std::string& line, int wsize, Case& c, std::string& 
       if (sg.kind == 'a') {
         long l, a;
         if (!natural(f[3], l) || !natural(f[4], a) || a > 3) return false;
+        if (f[5] != "0" && f[5] != "1") return false;
         sg.e.l = l; sg.e.a = (int)a; sg.e.pub = f[5] == "1";
+        if (f.size() == 7) {
+          long h;
+          if (f[6].size() != 1 || !natural(f[6], h) || h > 4) return false;
+          sg.e.how = (int)h;
+        }
       }
     } else if (sg.kind == 'R') {
       if (rest.size() != 1 || !natural(rest, n1) || n1 > 2) return false;
@@ -490,7 +554,8 @@ static Result runCase(const Case& c, Api& api, MPI_Comm comm, bool recordStats) 
   std::vector<std::vector<int>> bHints = hints;
   std::string fail;
   long nB = 0, nS = 0, nR = 0, nEntries = 0, nSkipped = 0, nNoop = 0, nPartial = 0, nF = 0, nX = 0, nXh = 0, nXcleared = 0, nI = 0, nN = 0;
-  long maxList = 0;
+  long maxList = 0, nHow12 = 0, nHow34 = 0, maxChunks = 0;
+  bool sawExactChunk = false, sawChunkPlus1 = false;
   // the hints the object holds are the ones passed last (the own rank may or may not have been removed already);
   // reported only if the lists themselves give no reason to complain
   std::string hintFail;
@@ -536,6 +601,7 @@ static Result runCase(const Case& c, Api& api, MPI_Comm comm, bool recordStats) 
           eff.push_back(e);
         }
         if (r == rank) api.resize(obj, pe.dels, eff);
+        for (auto& e : eff) { if (e.how == 1 || e.how == 2) ++nHow12; if (e.how >= 3) ++nHow34; }
         sh[r][obj] = nsh;
         pe.adds.clear();
         pe.dels.clear();
@@ -600,6 +666,13 @@ static Result runCase(const Case& c, Api& api, MPI_Comm comm, bool recordStats) 
         obs.push_back("b!");
         continue;
       }
+      for (int r = 0; r < P; ++r)
+        for (int o : {srcO[r], tgtO[r]}) {
+          long sz = (long)sh[r][o].size();
+          maxChunks = std::max(maxChunks, (sz + c.chunk - 1) / c.chunk);
+          if (sz > 0 && sz % c.chunk == 0) sawExactChunk = true;
+          if (sz > c.chunk && sz % c.chunk == 1) sawChunkPlus1 = true;
+        }
       api.rebuild(ign);
       if (need) { bIncl = incl; bHints = hints; bRing = ring; } else ++nNoop;
       built = true;
@@ -706,6 +779,11 @@ static Result runCase(const Case& c, Api& api, MPI_Comm comm, bool recordStats) 
     stat("ops_N", nN);
     stat("remote_index_entries_rank0", nEntries);
     stat(maxList == 0 ? "maxlist_0" : maxList <= 4 ? "maxlist_1_4" : maxList <= 16 ? "maxlist_5_16" : "maxlist_17_up");
+    stat("adds_how_1_2", nHow12);
+    stat("adds_how_3_4_fixup", nHow34);
+    if (maxChunks >= 2) stat(maxChunks == 2 ? "built_set_spans_2_chunks" : "built_set_spans_3_up_chunks");
+    if (sawExactChunk) stat("built_set_size_multiple_of_chunk");
+    if (sawChunkPlus1) stat("built_set_size_multiple_of_chunk_plus_1");
     size_t tot = 0;
     for (int o = 0; o < 3; ++o) tot += sh[0][o].size();
     stat(tot == 0 ? "rank0_sets_empty" : tot <= 8 ? "rank0_sets_1_8" : tot <= 32 ? "rank0_sets_9_32" : "rank0_sets_33_up");
@@ -766,13 +844,14 @@ static Result exec(const std::string& line) {
     }
   }
   {
-    std::unique_ptr<Api> api(makeApi(c.gtype, comm));
+    std::unique_ptr<Api> api(makeApi(c.gtype, c.chunk, comm));
     res = member ? runCase(c, *api, comm, wrank == 0) : runIdle(c, *api, comm);
   }
   if (c.comm != 'w') MPI_Comm_free(&comm);
   if (wrank == 0) {
     if (!member) stat("cases_without_statistics_world0_left_out");
     stat("gtype_" + c.gtype);
+    stat("chunk_" + std::to_string(c.chunk));
     stat(c.comm == 'w' ? "comm_world" : c.comm == 'd' ? "comm_dup" : c.extra ? "comm_split_sub" : "comm_split_renumbered");
   }
   // answer number i of the line is that of the process with role i: hand it to world process i
@@ -830,6 +909,11 @@ static std::string gen(Rng& rng, long, const Args& args) {
     else gtype = "pair";
   }
   std::string gTok = gtype == "int" ? (rng.coin(1, 8) ? " g=int" : "") : " g=" + gtype;
+  // chunk size of the index sets' ArrayList: with g=int half of the cases use a small one, so that ordinary small sets
+  // sit on every boundary (N-1, N, N+1, several chunks); the default 100 gets its own large sets below ("huge")
+  int chunk = 100;
+  if (gtype == "int" && rng.coin()) { int ck = (int)rng.below(3); chunk = ck == 0 ? 1 : ck == 1 ? 3 : 8; }
+  std::string nTok = chunk == 100 ? (rng.coin(1, 10) ? " n=100" : "") : " n=" + std::to_string(chunk);
   int intKind = (int)rng.below(6);  // int: 0 = values near INT_MAX, 1 = near INT_MIN, else small
   auto gv = [&](long g) -> Val {
     if (gtype == "int") return intKind == 0 ? 2147483647LL - 600 + g : intKind == 1 ? -2147483648LL + 8 + g : (Val)g;
@@ -858,8 +942,20 @@ static std::string gen(Rng& rng, long, const Args& args) {
   for (int r = 0; r < P; ++r) dflt[r] = anyDflt ? (int)rng.below(2) : 0;
   bool ringMode = rng.coin();
   bool big = rng.coin(1, 14);  // long lists
+  // huge: one rank holds *every* global index of the case in its sets, and their number sits on a boundary of the
+  // chunk size (k*N-1, k*N, k*N+1, k = 1, 2; also for the default N = 100)
+  bool huge = rng.coin(1, chunk == 100 ? 16 : 8);
+  int hugeRank = (int)rng.below(P);
 
   int nG = big ? (int)rng.range(20, thorough ? 70 : 40) : (int)rng.range(1, thorough ? 14 : 9);
+  if (huge) {
+    int k = rng.coin(2, 3) ? 1 : (rng.coin(3, 4) ? 2 : 3);
+    nG = std::max(1, k * chunk + (int)rng.below(4) - 1);   // k*N-1 .. k*N+2
+    big = true;
+  }
+  // the way local indices are made: mostly one variant per case (so a variant that misbehaves dominates its cases),
+  // sometimes mixed
+  int howKind = (int)rng.below(8);  // 0..2: variant 0, 3..6: variant howKind-2, 7: mixed
   long base = (negativeOk && rng.coin(1, 5)) ? -(long)rng.below(4) : (long)rng.below(50);
   int pubKind = (int)rng.below(10);  // 0: none public, 1..2: all public, else mostly
   double dens = big ? 0.5 + 0.1 * (double)rng.below(4) : 0.25 + 0.15 * (double)rng.below(5);
@@ -875,8 +971,9 @@ static std::string gen(Rng& rng, long, const Args& args) {
   auto addEntry = [&](int s, int r, long g, int attr) {
     int o = objOf(r, s);
     long l = rng.coin(1, 6) ? (long)rng.below(40) : nextLocal[r][o]++;
+    int how = howKind <= 2 ? 0 : howKind <= 6 ? howKind - 2 : (int)rng.below(5);
     segs.push_back("a" + std::to_string(s) + "," + std::to_string(r) + "," + gs(g) + "," + std::to_string(l) +
-                   "," + std::to_string(attr) + "," + (pubFlag() ? "1" : "0"));
+                   "," + std::to_string(attr) + "," + (pubFlag() ? "1" : "0") + (how || rng.coin(1, 10) ? "," + std::to_string(how) : ""));
     cur[r][o][g].push_back(attr);
     ever[r].insert(g);
   };
@@ -885,6 +982,7 @@ static std::string gen(Rng& rng, long, const Args& args) {
       std::vector<int> on;
       for (int r = 0; r < P; ++r) if ((double)rng.below(1000) < dens * 1000) on.push_back(r);
       if (on.empty()) on.push_back((int)rng.below(P));  // each global index on a non-empty subset of the ranks
+      if (huge && std::find(on.begin(), on.end(), hugeRank) == on.end()) on.push_back(hugeRank);
       for (int r : on) {
         if (s == 1 && !two[r]) continue;
         if (cur[r][objOf(r, s)].count(g)) continue;
@@ -899,7 +997,7 @@ static std::string gen(Rng& rng, long, const Args& args) {
   };
   std::vector<long> globals;
   for (int i = 0; i < nG; ++i) {
-    long g = base + (rng.coin(1, 4) ? i * 3 : i);
+    long g = base + (!huge && rng.coin(1, 4) ? i * 3 : i);
     globals.push_back(g);
     place(g);
   }
@@ -935,7 +1033,7 @@ static std::string gen(Rng& rng, long, const Args& args) {
     return nb;
   };
 
-  int phases = (int)rng.below(thorough ? 5 : 4);
+  int phases = (int)rng.below(huge && chunk == 100 ? 3 : thorough ? 5 : 4);
   // positions of segments that carry hints (N..., X<k>,...), filled in when the whole history is known
   std::vector<size_t> hintSlots;
   std::vector<int> hintSlotKind;  // 0: ring, 1: sparse, else covering
@@ -1034,7 +1132,7 @@ static std::string gen(Rng& rng, long, const Args& args) {
       c.erase(it);
     }
     for (int i = 0; i < na; ++i) {
-      long g = rng.coin() ? globals[rng.below(globals.size())] : base + nG * 3 + (long)rng.below(4);
+      long g = rng.coin() ? globals[rng.below(globals.size())] : base + nG * (huge ? 1 : 3) + (long)rng.below(4);
       if (std::find(globals.begin(), globals.end(), g) == globals.end()) globals.push_back(g);
       place(g);
     }
@@ -1059,7 +1157,7 @@ static std::string gen(Rng& rng, long, const Args& args) {
   }
   std::string flags;
   for (int r = 0; r < P; ++r) flags.push_back((char)('0' + two[r] + 2 * inclInit[r] + 4 * dflt[r]));
-  return "c04 " + std::to_string(P) + " " + flags + " " + hintStr + gTok + commTok + " : " + join(segs.begin(), segs.end(), ";");
+  return "c04 " + std::to_string(P) + " " + flags + " " + hintStr + gTok + nTok + commTok + " : " + join(segs.begin(), segs.end(), ";");
 }
 
 int main(int argc, char** argv) {
